@@ -297,7 +297,27 @@ func ruleSeqhash(c *Ctx, prop string) {
 				st = unknown
 			}
 		}
-		c.judge(st, "GUARD", "rejects unknown sequenceType", sum.Pos(), "the digest is unreachable for a type other than DNA/RNA/PROTEIN", "an unknown sequenceType reaches the digest")
+		whyU := "an unknown sequenceType reaches the digest"
+		if st != holds {
+			// the type is looked for INSIDE a constant text (strings.Contains(list, type)): every fragment of
+			// that text passes, the empty string first of all
+			tbU := newTB(h)
+			tbU.NoInline = true
+			eachInstr(h, func(i ssa.Instruction) {
+				cl, ok := i.(*ssa.Call)
+				if !ok || len(cl.Call.Args) != 2 {
+					return
+				}
+				switch calleeName(cl) {
+				case "strings.Contains", "strings.Index", "strings.LastIndex", "strings.Count":
+					hay, needle := tbU.T(cl.Call.Args[0]), tbU.T(cl.Call.Args[1])
+					if hs, isC := normText(hay).constStr(); isC && needle.isParam(1) && env.reach[cl.Block()] {
+						st, whyU = broken, fmt.Sprintf("the sequenceType is accepted when it occurs somewhere inside %q (%s): the empty string and every fragment of that text (\"NA\", \"or\") pass as a type and are hashed instead of being rejected", hs, calleeName(cl))
+					}
+				}
+			})
+		}
+		c.judge(st, "GUARD", "rejects unknown sequenceType", sum.Pos(), "the digest is unreachable for a type other than DNA/RNA/PROTEIN", whyU)
 	}
 	tb := newTB(h)
 	// error returns well-formed
